@@ -183,6 +183,57 @@ def from_info(info):
     return out
 
 
+_GRAMMAR_INDEX = {"ListOffsetArray": ("i32", "u32", "i64"), "ListArray": ("i32", "u32", "i64"), "IndexedArray": ("i32", "u32", "i64"),
+                  "IndexedOptionArray": ("i32", "i64"), "UnionArray8_": ("i32", "u32", "i64")}
+
+
+def outside_grammar(n):
+    """why a form (in the shape of normal()/from_info()) is not a node of the documented grammar - i.e. describes no array class
+    of the library - or None.  Form.fromjson is lenient (a generic "ListOffsetArray" with "offsets": "i8" is read), but the
+    property only speaks about forms constructible from the node grammar."""
+    if n is None:
+        return None
+    cls = n["class"]
+    if "?" in cls:
+        return "index width without an array class: " + cls
+    for family, widths in _GRAMMAR_INDEX.items():
+        if cls.startswith(family) and (family != "IndexedArray" or not cls.startswith("IndexedOptionArray")):
+            w = n.get("offsets") or n.get("starts") or n.get("index")
+            if w not in widths:
+                return "index width without an array class: %s %s" % (family, w)
+    if cls == "NumpyArray":
+        if n["primitive"] is None:
+            return "format that is no primitive"
+        if n["itemsize"] != ITEMSIZE.get(n["primitive"]):
+            return "itemsize that is not the primitive's"
+        if any((not isinstance(x, int)) or x < 0 for x in n["inner_shape"]):
+            return "negative inner_shape"
+        return None
+    if cls == "RegularArray" and n["size"] < 0:
+        return "negative size"
+    if cls.startswith("ListArray") and n["starts"] != n["stops"]:
+        return "starts and stops of different widths"
+    if cls == "ByteMaskedArray" and n["mask"] != "i8":
+        return "ByteMaskedArray mask that is not i8"
+    if cls == "BitMaskedArray" and n["mask"] != "u8":
+        return "BitMaskedArray mask that is not u8"
+    if cls.startswith("UnionArray") and n["tags"] != "i8":
+        return "UnionArray tags that are not i8"
+    if "duplicate_keys" in n:
+        return "duplicate record keys"
+    for key in ("content", "form"):
+        if n.get(key) is not None:
+            r = outside_grammar(n[key])
+            if r:
+                return r
+    cs = n.get("contents")
+    for c in (cs.values() if isinstance(cs, dict) else cs or []):
+        r = outside_grammar(c)
+        if r:
+            return r
+    return None
+
+
 def json_equal(a, b, key_order=False):
     """equality of JSON values: numbers by numeric value (1 == 1.0), bools only equal bools, objects ignore member order
     (unless key_order), arrays are ordered"""
